@@ -52,13 +52,13 @@ class Money:
 
 
 LEAVES = ["int", "str", "float", "None", "bool", "Enum", "IntEnum", "StrEnum", "builtin-exception", "client-exception",
-          "JsonSerializable", "empty-list", "empty-dict"]
+          "JsonSerializable", "empty-list", "empty-dict", "builtin-exception-without-args", "client-exception-without-args"]
 WRAPPERS = ["-", "[x]", "[x, 7]", "{'k': x}", "{'k': x, 'n': 1}"]
 
 
 def leaf(i: int) -> Any:
     return [5, "s", 1.5, None, True, Color.RED, Level.HIGH, Tag.B, ValueError("bad", 3), AppError("custom", 1),
-            Money(3, "EUR"), [], {}][i]
+            Money(3, "EUR"), [], {}, TimeoutError(), AppError()][i]
 
 
 def wrap(w: int, x: Any) -> Any:
